@@ -178,8 +178,56 @@ def matches_finding(ctx, kind, detail):
 
 # ------------------------------------------------------------------ run
 
+def gen_arg_text(rng, depth):
+    """random expression texts for the `cls` protocol (they only have to parse)"""
+    k = rng.below(9) if depth > 0 else rng.below(3)
+    d = depth - 1
+    if k == 0:
+        return rng.pick(["1", "x", "true", "x + 1", "!b", "Foo.bar", "x.y", "(1, 2)", "-x"])
+    if k == 1:
+        return rng.pick(["f(x)", "Foo.bar(1)", "x.m()", "Process.panic(\"p\")", "f((a) -> a)"])
+    if k == 2:
+        n = rng.range(0, 3)
+        ps = ", ".join(f"p{i}: int" if rng.chance(1, 2) else f"p{i}" for i in range(n))
+        return f"({ps}) -> " + gen_arg_text(rng, d if depth > 0 else 0)
+    if k == 3:
+        els = gen_arg_text(rng, d)
+        mid = f" else if c2 {{ {gen_arg_text(rng, d)} }}" if rng.chance(1, 3) else ""
+        return f"if c {{ {block_body(rng, d)} }}{mid} else {{ {els} }}"
+    if k == 4:
+        arms = ", ".join(f"K{i}(v{i}) -> " + gen_arg_text(rng, d) for i in range(rng.range(1, 3)))
+        return f"match m {{ {arms} }}"
+    if k == 5:
+        return "{ " + block_body(rng, d) + " }"
+    if k == 6:
+        return "(" + gen_arg_text(rng, d) + ")"
+    if k == 7:
+        return f"(q: int) -> {{ {block_body(rng, d)} }}"
+    return f"if let S(w) = o {{ {gen_arg_text(rng, d)} }} else {{ {gen_arg_text(rng, d)} }}"
+
+
+def block_body(rng, d):
+    stmts = "".join(f"let t{i} = {gen_arg_text(rng, 0)}; " for i in range(rng.range(0, 2)))
+    k = rng.below(4)
+    if k == 0:
+        return stmts               # no final expression
+    return stmts + gen_arg_text(rng, d)
+
+
 def run(ctx):
+    # translator first: Generated/C13Phase0.lean must reflect the current source
+    rc_x, out_x = common.sh(["python3", os.path.join(common.VERIF, "extract", "c13_phase0.py")])
+    if rc_x != 0:
+        ctx.violation("translator extract/c13_phase0.py no longer recognises Phase 0 of check_function_call_implicit_instantiation: " + out_x.strip()[-200:],
+                      {"broken": "extract/c13_phase0.py", "log": out_x[-2000:]}, no_input=True)
     res = common.proof_gate(ctx)
+    # part c (hint-ordering kernel): depends on the generated Phase-0 table
+    rc_ = common.audit("C13Hint")
+    res["obligations"] += rc_["obligations"]; res["discharged"] += rc_["discharged"]
+    if rc_["failed"]:
+        ctx.violation("proof obligations of Props/C13Hint.lean no longer check against the current source (Generated/C13Phase0.lean: re-check test = %s): " % (out_x.strip()[-40:],)
+                      + "; ".join(f"{n} ({w})" for n, w in rc_["failed"][:4]),
+                      {"broken_theorems": rc_["failed"], "generated": out_x.strip(), "log": rc_["log"][-3000:]}, no_input=True)
     # part b (parentheses) builds on builder-C08's parser model + lemmas: audited separately; if that
     # model does not build (another builder mid-edit) it is C08's failure, and part b is listed as
     # not checked in this run
@@ -213,7 +261,7 @@ def run(ctx):
         texts.append(open(f).read())
     nrepo = len(texts)
     progs = []
-    nprog = ctx.scale(200, 3000)
+    nprog = ctx.scale(170, 3000)
     for i in range(nprog):
         broken = rng.weighted([(None, 14), ("unbound", 2), ("dup", 2), ("type", 2), ("underconstrained", 1)])
         p = scopegen.gen_program(rng.fork(), broken)
@@ -272,6 +320,19 @@ def run(ctx):
                               {"original": t1, "reordered": t2, "sig1": r[0][1], "sig2": r[1][1]})
                 break
     hist["sig_permutations_checked"] = perm_checked
+    # ---------- tie: classification of generic-call arguments (hook verif_hooks_c13)
+    ctexts = sorted(set(gen_arg_text(rng, rng.range(1, 4)) for _ in range(ctx.scale(1500, 20000))))
+    cls_res, cls_other = correspond("cls", ctexts)
+    cls_hist = {"0": 0, "1": 0}
+    for t, a, m in cls_res:
+        cls_hist[a] = cls_hist.get(a, 0) + 1
+        if a != m:
+            ctx.violation("model/implementation disagreement on protocol cls (Model/C13Hint.lean withoutHint vs arguments_should_be_checked_without_hint): impl=%s model=%s" % (a, m),
+                          {"protocol": "cls", "expression": t, "impl": a, "model": m, "broken": "correspondence cls"}, no_input=True)
+            break
+    hist["cls_expressions_compared"] = len(cls_res)
+    hist["cls_classification"] = cls_hist
+    hist["cls_phase0_test_extracted"] = out_x.strip() if rc_x == 0 else "extractor failed"
 
     # ---------- oracle: metamorphic run on the real checker
     lines, meta = [], []
@@ -321,7 +382,7 @@ def run(ctx):
     beh = {"compared": 0, "no_node": 0}
     try:
         common.build_exec()
-        nbeh = ctx.scale(60, 600)
+        nbeh = ctx.scale(45, 600)
         chosen = sorted(set(pi for pi, _, _ in exec_jobs))[:nbeh]
         jobs = [(pi, "original", progs[pi]) for pi in chosen] + [j for j in exec_jobs if j[0] in set(chosen)]
         outs = common.exec_programs([{"sources": scopegen.render(q), "entry": "Main", "std": True, "ts": False,
@@ -387,13 +448,14 @@ def run(ctx):
             forms[f] = forms.get(f, 0) + 1
     hist["binding_forms"] = forms
     ctx.cov.update({
-        "evaluations": len(ssa_res) + len(sig_res) + len(verdicts) + len(verdicts2) + beh["compared"],
+        "evaluations": len(ssa_res) + len(sig_res) + len(cls_res) + len(verdicts) + len(verdicts2) + beh["compared"],
         "distinct_nontrivial": len(set(t for t, a, _ in ssa_res if re.search(r"M\[\d", a))),
         "rule": "ssa: distinct modules (repo tests/*.sam, generated typed programs with every binding form, ill-scoped identifier-swap mutants) whose analysis resolved at least one use; sig: modules with random duplicate class/member/variant names; metamorphic: generated accepted+rejected programs (generic callees with inferred type arguments taking multi-parameter lambdas, method references, nested generic calls, tuples, generic methods) x rewrites {rename-local, reorder, paren x2, wrap (block) x2, annotate-one per site (lambda parameter / let / type-argument list), annotate-subset, annotate-all (accepted only), split-modules}; behaviour: wasm output under Node 22",
-        "samples": samples, "traces_validated_against_impl": len(ssa_res) + len(sig_res),
+        "samples": samples, "traces_validated_against_impl": len(ssa_res) + len(sig_res) + len(cls_res),
         "histograms": hist, "part_b_parentheses": partb,
         "partial": ["toplevel_order_invariant / toplevel_block_context: every class body resolves identically in any order of the toplevels; the order in which per-class results are appended to the result tables is not covered",
-                    "block_wrap_resolution: side condition = the wrapped tree binds nothing at its own top level (closedAt 0, decidable)",
+                    "block_wrap_resolution: side condition = the wrapped tree binds nothing at its own top level; proved for every expression-like tree (block_wrap_expr)",
+                    "hint kernel (Props/C13Hint.lean): classification + Phase 0 decision only; what a hint is and how it is solved (Phase 1) is not modelled",
                     "signature_perm_invariant requires pairwise distinct names; with duplicates the last declaration wins (signature_dup_order_counterexample) — exactly the case in which the checker reports a name collision"],
         "pending": ["annotation / explicit-type-argument / module-splitting / block-wrapping rewrites go through the inference engine and are covered by the metamorphic oracle only (each annotation site individually, in random subsets, and all at once)"]})
     ctx.assumptions += ["locations of distinct syntax nodes are distinct (the harness numbers Locations)",
@@ -409,6 +471,12 @@ def replay(ctx, path):
     common.build_harness(PROP); common.build_lean(["drv-c13"])
     data = json.load(open(path))
     r = data["replay"]
+    if r.get("protocol") == "cls":
+        res, other = correspond("cls", [r["expression"]])
+        for t, a, m in res:
+            print("impl :", a); print("model:", m)
+            return 1 if a != m else 0
+        print(other); return 1
     if "protocol" in r and "module" in r:
         res, other = correspond(r["protocol"], [r["module"]])
         for t, a, m in res:
